@@ -31,7 +31,9 @@ BuiltinFrames == {f \in [kind : {"cancel", "chval", "chclose"}, shape : Shapes, 
 RespFrames    == [kind : {"response"}, rid : {"live", "livestr", "unknown", "str", "absent", "null", "bool", "obj"},
                   body : {"result", "badresult", "error", "both", "neither", "badshape"}]
 OtherFrames   == [kind : {"garbage"}, g : {"text", "empty", "binary", "array", "number", "badmethod", "badmeta", "deep", "truncated", "hugeid"}]
-                 \cup [kind : {"call"}, c : {"valid", "unknown", "badspan", "objid", "boolid", "fracid", "emptymethod"}]
+                 \cup [kind : {"call"}, c : {"valid", "unknown", "badspan", "objid", "boolid", "fracid", "emptymethod",
+                                          \* a registered one-parameter method with every shape of the params member (request and notification)
+                                          "p1absent", "p1null", "p1empty", "p1two", "p1object", "p1wrongtype", "p1absentnotif", "p1emptynotif", "p1string"}]
                  \cup [kind : {"wsviolation"}, v : {"rsv", "opcode", "badclose", "fragctl"}]
 Frames == BuiltinFrames \cup RespFrames \cup OtherFrames
 
